@@ -5,7 +5,7 @@ from props.profiles_common import *
 
 ASSUMPTIONS = ['NFC/NFKC are the external crate unicode-normalization, modelled executably and compared with the crate on every run']
 TRUSTED = ['specifications of enforce: C04, C05, C06; case mapping C10']
-FACT_MODULES = ['Precis.Facts.Prof']
+FACT_MODULES = ['Precis.Facts.Prof', 'Precis.Props.C07Canon']
 
 # variants of one name: case, width, spacing, canonically / compatibly equivalent spellings
 FAMILIES = {
